@@ -1,1 +1,59 @@
-From OPF Require Import Model.Knn Model.Pdf.
+From Coq Require Import List ZArith.
+From OPF Require Import Model.Knn Proofs.Select.
+Import ListNotations.
+
+(* KNNSupervisedOPF._learn: the kept k (1-based position in the list of validation accuracies of k = 1..max_k)
+   is the smallest one attaining the maximum accuracy. *)
+Theorem C16_knn_select_argmax :
+  forall (zero : Z) (accs : list Z),
+    accs <> [] -> (forall a, In a accs -> (zero <= a)%Z) ->
+    exists i, knn_select Z.ltb zero accs = Some (S i) /\ i < length accs /\
+      (forall j, j < length accs -> (nth j accs zero <= nth i accs zero)%Z) /\
+      (forall j, j < i -> (nth j accs zero < nth i accs zero)%Z).
+Proof. exact knn_select_argmax. Qed.
+
+(* no candidate beats the initial max_acc = 0: the initial best_k = 1 is kept *)
+Theorem C16_knn_select_all_zero :
+  forall (zero : Z) (accs : list Z),
+    (forall a, In a accs -> (a <= zero)%Z) -> knn_select Z.ltb zero accs = Some 1.
+Proof. exact knn_select_all_zero. Qed.
+
+(* UnsupervisedOPF._best_minimum_cut: [e] candidates are evaluated (up to and including the first cut that is
+   exactly zero, all of them if there is none); the kept k = min_k + i is the smallest one attaining the minimum
+   cut among the evaluated candidates. *)
+Theorem C16_cut_select_argmin :
+  forall (zero top : Z) (min_k : nat) (cuts : list Z),
+    cuts <> [] -> (forall c, In c cuts -> (zero <= c < top)%Z) ->
+    exists e i, cut_select Z.ltb zero top min_k cuts = (Some (min_k + i), e) /\
+      1 <= e <= length cuts /\
+      (forall j, S j < e -> nth j cuts zero <> zero) /\
+      (e = length cuts \/ nth (e - 1) cuts zero = zero) /\
+      i < e /\
+      (forall j, j < e -> (nth i cuts zero <= nth j cuts zero)%Z) /\
+      (forall j, j < i -> (nth i cuts zero < nth j cuts zero)%Z).
+Proof. exact cut_select_argmin. Qed.
+
+(* the same with the number of evaluated candidates given by the recursive function [cut_evaluated] *)
+Theorem C16_cut_select_argmin_fun :
+  forall (zero top : Z) (min_k : nat) (cuts : list Z),
+    cuts <> [] -> (forall c, In c cuts -> (zero <= c < top)%Z) ->
+    let e := cut_evaluated zero cuts in
+    exists i, cut_select Z.ltb zero top min_k cuts = (Some (min_k + i), e) /\ i < e /\
+      (forall j, j < e -> (nth i cuts zero <= nth j cuts zero)%Z) /\
+      (forall j, j < i -> (nth i cuts zero < nth j cuts zero)%Z).
+Proof. exact cut_select_argmin_fun. Qed.
+
+Theorem C16_knn_select_ex_tie : knn_select Z.ltb 0%Z [3; 7; 5; 7; 2]%Z = Some 2.
+Proof. exact knn_select_ex_tie. Qed.
+
+Theorem C16_knn_select_ex_all_zero : knn_select Z.ltb 0%Z [0; 0; 0]%Z = Some 1.
+Proof. exact knn_select_ex_all_zero. Qed.
+
+Theorem C16_cut_select_ex_tie : cut_select Z.ltb 0%Z 1000%Z 3 [9; 4; 6; 4; 8]%Z = (Some 4, 5).
+Proof. exact cut_select_ex_tie. Qed.
+
+Theorem C16_cut_select_ex_early_zero : cut_select Z.ltb 0%Z 1000%Z 2 [5; 3; 0; 0; 1]%Z = (Some 4, 3).
+Proof. exact cut_select_ex_early_zero. Qed.
+
+Print Assumptions C16_knn_select_argmax.
+Print Assumptions C16_cut_select_argmin.
